@@ -215,6 +215,14 @@ func Origins(v ssa.Value) []ssa.Value {
 						rec(fv)
 						return
 					}
+					// a field of a local struct whose address only goes to single-use step functions (the struct
+					// plays the part of the variables a function literal would have captured)
+					if vals, ok := SharedStructStores(fa); ok {
+						for _, sv := range vals {
+							rec(sv)
+						}
+						return
+					}
 					// a field of the environment struct of a method that stands for a function literal
 					if vals, ok := EnvFieldStores(fa); ok {
 						for _, sv := range vals {
@@ -356,6 +364,65 @@ func CallResult(v ssa.Value) (*ssa.Call, int, bool) {
 		}
 	}
 	return nil, 0, false
+}
+
+// ResultPart: v is the result of a call, an extracted component of it, or a
+// field of a struct it returns by value (what "several results packed into a
+// small result struct" leaves): the call, else nil.
+func ResultPart(v ssa.Value) *ssa.Call {
+	if c, _, ok := CallResult(v); ok {
+		return c
+	}
+	switch x := v.(type) {
+	case *ssa.Field:
+		return ResultPart(x.X)
+	case *ssa.UnOp:
+		if x.Op != token.MUL {
+			return nil
+		}
+		// a load of (a field of) the local the struct result was stored in
+		addr := x.X
+		if fa, ok := addr.(*ssa.FieldAddr); ok {
+			addr = fa.X
+		}
+		if al, ok := addr.(*ssa.Alloc); ok {
+			sts := StoresTo(al)
+			if len(sts) == 1 {
+				if _, isStruct := sts[0].Val.Type().Underlying().(*types.Struct); isStruct {
+					if c, _, isCall := CallResult(sts[0].Val); isCall {
+						return c
+					}
+				}
+			}
+		}
+	}
+	return nil
+}
+
+// ResultField: v is field `field` of the struct that is result idx of call
+// (read directly off the result, or off the local the result was stored in).
+func ResultField(v ssa.Value) (call *ssa.Call, idx, field int, ok bool) {
+	switch x := v.(type) {
+	case *ssa.Field:
+		for _, bo := range Origins(x.X) {
+			if c, i, ok := CallResult(bo); ok {
+				return c, i, x.Field, true
+			}
+		}
+	case *ssa.UnOp:
+		if fa, isFA := x.X.(*ssa.FieldAddr); isFA && x.Op == token.MUL {
+			if al, isAl := fa.X.(*ssa.Alloc); isAl {
+				if sts := StoresTo(al); len(sts) == 1 {
+					if c, i, ok := CallResult(sts[0].Val); ok {
+						if _, isStruct := sts[0].Val.Type().Underlying().(*types.Struct); isStruct {
+							return c, i, fa.Field, true
+						}
+					}
+				}
+			}
+		}
+	}
+	return nil, 0, 0, false
 }
 
 // IsResultOf reports whether v is result idx of a call to one of names.
@@ -846,4 +913,92 @@ func CtorFieldValue(call *ssa.Call, fld int) ssa.Value {
 		}
 	}
 	return res
+}
+
+// SharedStructStores: fa addresses a field of a local struct variable (directly,
+// or through the parameter of a single-use step function that was handed its
+// address). If the variable's address goes nowhere else, the values stored to
+// that field anywhere in those functions.
+func SharedStructStores(fa *ssa.FieldAddr) ([]ssa.Value, bool) {
+	if len(InlineSite) == 0 {
+		return nil, false
+	}
+	base := ResolveFree(fa.X)
+	al, ok := base.(*ssa.Alloc)
+	if !ok {
+		return nil, false
+	}
+	if _, isStruct := Deref(al.Type()).Underlying().(*types.Struct); !isStruct {
+		return nil, false
+	}
+	shared := false // handed to at least one step function (otherwise the ordinary rules apply)
+	okAll := true
+	var vals []ssa.Value
+	var visit func(v ssa.Value, depth int)
+	visit = func(v ssa.Value, depth int) {
+		if v.Referrers() == nil || depth > 3 {
+			okAll = false
+			return
+		}
+		for _, r := range *v.Referrers() {
+			switch x := r.(type) {
+			case *ssa.FieldAddr:
+				if x.X != v {
+					okAll = false
+					continue
+				}
+				if x.Field != fa.Field {
+					// other fields: their address must not leak either, but their stores do not matter here
+					continue
+				}
+				if x.Referrers() == nil {
+					continue
+				}
+				for _, rr := range *x.Referrers() {
+					switch y := rr.(type) {
+					case *ssa.Store:
+						if y.Addr == ssa.Value(x) {
+							vals = append(vals, y.Val)
+						} else {
+							okAll = false
+						}
+					case *ssa.UnOp, *ssa.DebugRef:
+					default:
+						okAll = false
+					}
+				}
+			case *ssa.DebugRef:
+			case *ssa.MakeClosure:
+				// captured by a literal: the literal's free variable is the same cell
+				fn, _ := x.Fn.(*ssa.Function)
+				for i, b := range x.Bindings {
+					if b == v && fn != nil && i < len(fn.FreeVars) {
+						visit(fn.FreeVars[i], depth+1)
+					}
+				}
+			default:
+				cc := CallOf(r)
+				g := InlinedAt[r]
+				if cc == nil || g == nil {
+					okAll = false
+					continue
+				}
+				for i, a := range cc.Args {
+					if a == v {
+						if i < len(g.Params) {
+							shared = true
+							visit(g.Params[i], depth+1)
+						} else {
+							okAll = false
+						}
+					}
+				}
+			}
+		}
+	}
+	visit(al, 0)
+	if !okAll || !shared || len(vals) == 0 {
+		return nil, false
+	}
+	return vals, true
 }
